@@ -388,6 +388,8 @@ pub struct GenCfg {
     pub plant_pct: u64,
     /// probability (percent) that a variable gets a huge but narrow domain (C16)
     pub big_pct: u64,
+    /// probability (percent) that the model comes from the structured family (`gen_model_sym`)
+    pub sym_pct: u64,
 }
 
 impl Default for GenCfg {
@@ -408,6 +410,7 @@ impl Default for GenCfg {
             centre: 0,
             plant_pct: 50,
             big_pct: 0,
+            sym_pct: 20,
         }
     }
 }
@@ -871,7 +874,103 @@ impl<'a> Gen<'a> {
 }
 
 pub fn gen_model(rng: &mut Rng, cfg: &GenCfg) -> Model {
+    if rng.below(100) < cfg.sym_pct && cfg.big_pct == 0 && cfg.kinds.iter().any(|k| *k == "clause") && cfg.kinds.iter().any(|k| *k == "linle") {
+        return gen_model_sym(rng, cfg);
+    }
+    if rng.below(100) < 2 * cfg.sym_pct && cfg.big_pct == 0 && cfg.kinds.iter().filter(|k| **k == "cumul").count() >= 2 {
+        return gen_model_sched(rng, cfg);
+    }
     Gen::new(rng, cfg.clone()).gen_model()
+}
+
+/// Small scheduling instances: 4-6 tasks with their own start variable each, positive durations and
+/// usages, a capacity that makes the resource tight, staggered release times, and sometimes a
+/// precedence or a disequality between two starts. Unlike the generic generator (2-4 tasks, often
+/// sharing variables, often trivially infeasible) these keep several profiles alive at once, which is
+/// what the incremental time-table maintenance is about.
+pub fn gen_model_sched(r: &mut Rng, cfg: &GenCfg) -> Model {
+    let mut m = Model::default();
+    let mut n = 4 + r.usize(3);
+    let horizon = r.i32(3, 6);
+    while n > 3 && ((horizon as u64 + 1).pow(n as u32)) > cfg.max_product.max(256) * 4 {
+        n -= 1;
+    }
+    let mut tasks = vec![];
+    let mut product: u64 = 1;
+    for i in 0..n {
+        let release = r.i32(0, horizon);
+        let mut width = r.i32(0, horizon.min(4));
+        while product * (width as u64 + 1) > cfg.max_product.max(256) && width > 0 {
+            width -= 1;
+        }
+        product *= width as u64 + 1;
+        m.vars.push(VarDecl { kind: VarKind::Interval, values: (release..=release + width).collect() });
+        tasks.push((View { scale: 1, offset: 0, var: i }, r.i32(1, 4), r.i32(1, 3)));
+    }
+    let cap = r.i32(3, 5);
+    m.cons.push(Cons::Cumulative(tasks, cap, CumOpt::from_index(r.usize(144))));
+    if r.chance(1, 2) {
+        let a = r.usize(n);
+        let b = r.usize(n);
+        if a != b {
+            if r.chance(1, 2) {
+                m.cons.push(Cons::LinNe(vec![View { scale: 1, offset: 0, var: a }, View { scale: -1, offset: 0, var: b }], 0));
+            } else {
+                m.cons.push(Cons::LinLe(vec![View { scale: 1, offset: 0, var: a }, View { scale: -1, offset: 0, var: b }], -1));
+            }
+        }
+    }
+    m
+}
+
+/// Structured models of the kind hand-written CP models have and uniform random generation almost
+/// never produces: several variables with the same (or nested) domains, one sum constraint over all of
+/// them, clauses of equality / disequality literals over different variables with the *same*
+/// constant, ordering chains, all-different. Ties and simultaneous bound changes are the point:
+/// several watched predicates of one clause become true in the same propagation round.
+pub fn gen_model_sym(r: &mut Rng, cfg: &GenCfg) -> Model {
+    let mut m = Model::default();
+    let lo = r.i32(-2, 1);
+    let width = r.i32(2, 6);
+    let mut n = 3 + r.usize(3);
+    while n > 2 && ((width as u64 + 1).pow(n as u32)) > cfg.max_product.max(64) {
+        n -= 1;
+    }
+    for i in 0..n {
+        // the last one or two variables sometimes get a shorter range (as in "slack" variables)
+        let w = if i + 2 >= n && r.chance(1, 2) { r.i32(1, width) } else { width };
+        m.vars.push(VarDecl { kind: VarKind::Interval, values: (lo..=lo + w).collect() });
+    }
+    let id = |x: usize| View { scale: 1, offset: 0, var: x };
+    let all: Vec<View> = (0..n).map(id).collect();
+    let mid = lo as i64 * n as i64 + (width as i64 * n as i64) / 2;
+    let c = (mid + r.range(-2, 3)) as i32;
+    match r.below(4) {
+        0 => m.cons.push(Cons::LinEq(all.clone(), c)),
+        _ => m.cons.push(Cons::LinLe(all.clone(), c)),
+    }
+    let nclauses = 1 + r.usize(3);
+    for _ in 0..nclauses {
+        let v = r.i32(lo, lo + width);
+        let k = 2 + r.usize(2.min(n - 1));
+        let mut vars: Vec<usize> = (0..n).collect();
+        r.shuffle(&mut vars);
+        let positive = !r.chance(1, 4);
+        m.cons.push(Cons::Clause(
+            vars[..k.min(n)].iter().map(|&x| if positive { Atom::Eq(x, v) } else { Atom::Ne(x, v) }).collect(),
+        ));
+    }
+    match r.below(5) {
+        0 => m.cons.push(Cons::AllDiff(all.clone())),
+        1 => {
+            for i in 0..n - 1 {
+                m.cons.push(Cons::LinLe(vec![id(i), View { scale: -1, offset: 0, var: i + 1 }], 0));
+            }
+        }
+        2 => m.cons.push(Cons::LinNe(vec![id(0), View { scale: -1, offset: 0, var: n - 1 }], 0)),
+        _ => {}
+    }
+    m
 }
 
 // ---------------------------------------------------------------------------------------------
